@@ -726,7 +726,8 @@ func (p *Parser) parseTransferEncoding() error {
 
 //go:norace
 func (p *Parser) parseContentLength() (err error) {
-	if cl := p.header.Get(contentLengthHeader); cl != "" {
+	if cls := p.header[contentLengthHeader]; len(cls) > 0 {
+		cl := cls[0]
 		if p.chunked {
 			return ErrUnexpectedContentLength
 		}
